@@ -135,6 +135,7 @@ ReadyKind(en) == en.k \in {"retcall", "fwdcall", "slabrm"} \/ (en.k = "call" /\ 
 \*   "stay"  : must produce an observable event (not skippable)
 Fate(st, en) ==
   CASE en.k = "item" -> "stay"
+    [] en.k = "mark" -> "gone"
     [] en.k = "term" -> IF AState(st, en.aid) = "zombie" THEN "gone" ELSE "stay"
     [] en.k = "slabrm" -> IF AState(st, en.aid) = "prep" THEN "hold" ELSE "gone"
     [] en.k \in {"retcall", "fwdcall"} ->
@@ -266,8 +267,13 @@ NowBad(st, e, q) ==
 TimerExec(st, e, it) ==
   LET tid == it.tid
       tm == st.timers[tid]
-      s0q == Settle(st).mainQ
-      pendPre == {s0q[i].id : i \in {j \in 1..Len(s0q) : s0q[j].k \in {"item", "call"} /\ s0q[j].id \in st.preRun}}
+      \* everything queued before run() precedes the expired callbacks: it has run, is held or was a no-op
+      mi == IdxOf(st.mainQ, LAMBDA en : en.k = "mark")
+      pre == SubSeq(st.mainQ, 1, IF mi = 0 THEN 0 ELSE mi - 1)
+      pendPre == {j \in 1..Len(pre) : Fate(st, pre[j]) = "stay"}
+      stc == IF mi = 0 THEN st
+             ELSE Consume(st, SelectSeq(pre, LAMBDA en : Fate(st, en) # "stay"),
+                          SelectSeq(pre, LAMBDA en : Fate(st, en) = "stay") \o SubSeq(st.mainQ, mi, Len(st.mainQ)))
       fixedShort == tm.kind = "fixed" /\ Short(tm)
       ordBad == IF fixedShort THEN
                   B(\E j \in 1..Len(st.fired) :
@@ -288,8 +294,8 @@ TimerExec(st, e, it) ==
            \cup B(Lt(st.now, tm.eff), "C07", "timer fired before its effective expiry")
            \cup B(pendPre # {}, "C19", "timer callback ran before calls queued before run()")
            \cup ordBad
-      s1 == [st EXCEPT !.timers[tid].s = "f",
-                       !.fired = IF fixedShort THEN Append(@, tid) ELSE @]
+      s1 == [stc EXCEPT !.timers[tid].s = "f",
+                        !.fired = IF fixedShort THEN Append(@, tid) ELSE @]
   IN R(s1, bad)
 
 ApplyX(st, e) ==
@@ -442,7 +448,10 @@ ApplyRun(st, e) ==
       s1 == [st EXCEPT !.inRun = TRUE, !.prev = st.now, !.now = TMax(st.now, t), !.runT = t,
                        !.runIdle = e.idle, !.runAdv = Lt(st.now, t), !.nexec = 0,
                        !.lastq = "none", !.fired = << >>, !.runNo = @ + 1,
-                       !.preRun = {st.mainQ[i].id : i \in {j \in 1..Len(st.mainQ) : st.mainQ[j].k \in {"item", "call"}}}]
+                       !.preRun = {st.mainQ[i].id : i \in {j \in 1..Len(st.mainQ) : st.mainQ[j].k \in {"item", "call"}}},
+                       \* expired timer callbacks are appended to the swapped-out main queue here
+                       !.mainQ = IF Lt(st.now, t) THEN Append(SelectSeq(@, LAMBDA en : en.k # "mark"), Entry("mark", 0, 0, FALSE, 0))
+                                 ELSE SelectSeq(@, LAMBDA en : en.k # "mark")]
   IN R(s1, B(st.inRun, "C06", "harness: nested run"))
 
 LeftoverBad(st) ==
